@@ -19,8 +19,8 @@ import (
 // them with config.Parse, injects a generated system state into the plugins and calls
 // Interface.RouterAdvertisement 1..3 times.  Emitted per case: the parsed configuration, the system
 // state and the observed RA (or the failure).  Implementation-only assertions: the k RAs are deeply
-// equal; a deep snapshot of the Interface is unchanged by building; scribbling over a returned RA does
-// not change what the next build returns nor the configuration.
+// equal; a deep snapshot of the Interface (plugin fields and the contents of their slices included) taken
+// before the first build equals the snapshot taken after the last one.
 func TestVerifC01(t *testing.T) {
 	out := verifh.Open()
 	defer out.Close()
@@ -143,16 +143,6 @@ func vbC01Case(t *testing.T, out *verifh.Out, id, toml string, cross *int) {
 	if errs[0] == nil {
 		obsJ = vbDump(ras[0])
 		g.tag(fmt.Sprintf("options:%d", min(len(ras[0].Options), 10)))
-		// no sharing: scribble over the last returned RA, rebuild, compare with the first snapshot
-		first := vbDump(ras[0])
-		vbMutateRA(ras[k-1])
-		again, _, err := ifi.RouterAdvertisement(s.fwd)
-		if err != nil || vbDump(again) != first {
-			viol = append(viol, "mutating a returned RA changed the next RA built from the same configuration")
-		}
-		if after := vbDump(ifi); after != before {
-			viol = append(viol, "mutating a returned RA altered the configuration")
-		}
 	} else {
 		g.tag("build:error")
 	}
